@@ -39,8 +39,8 @@ MODEL = dict(
     bin="feefwd",
     trace="Trace_FeeForwarder",
     mc=[
-        _mc("pl", "permissionless", depth=2, tdepth=3, every=12, tevery=10, **_full),
-        _mc("pd", "permissioned", depth=2, tdepth=3, every=12, tevery=10, **_full),
+        _mc("pl", "permissionless", depth=2, tdepth=3, every=12, tevery=15, **_full),
+        _mc("pd", "permissioned", depth=2, tdepth=3, every=12, tevery=15, **_full),
         _mc("pd_list", "permissioned", depth=5, tdepth=6, every=15, tevery=4, **_list),
         _mc("lib_eager_list", "lib", "Eager", depth=4, tdepth=5, every=4, tevery=4,
             LToks={"t1", "t2", "t3"}, FToks={"t1", "t2"}, Fees={1, 2}, Maxs={1, 2}),
@@ -55,7 +55,7 @@ MODEL = dict(
         _mc("lib_eager", "lib", "Eager", bug="eager_keeps_higher", depth=2, **dict(_full, Users={"u"})),
     ],
     quick=dict(sample=4500, drive_runs=360, drive_len=40),
-    thorough=dict(sample=None, drive_runs=9000, drive_len=60, tlc_timeout=3000),
+    thorough=dict(sample=None, drive_runs=6000, drive_len=60, tlc_timeout=3000),
     need=[(o, r) for o in ("forward", "approve", "allow", "disallow") for r in ("ok", "fail")],
     need_cnt=["C19_auth", "C19_charge", "C19_target", "C19_atomic", "C19_allowance", "C19_allowlist",
               "C19_allowed_getter", "C19_list_enum", "C19_list_edit"],
@@ -81,6 +81,8 @@ MODEL = dict(
         if ev["op"]["op"] in ("allow", "disallow") else None,
         # is_allowed_fee_token disagreeing with the list
         lambda ev: set_field(ev, ["obs", "list", "allowed", "t2"], not ev["obs"]["list"]["allowed"]["t2"]),
+        # a library getter that trapped
+        lambda ev: set_field(ev, ["obs", "list", "getter_ok"], False),
         # a duplicate allow reported as accepted
         lambda ev: set_field(ev, ["res"], "ok") if ev["op"]["op"] == "allow" and ev["res"] == "fail" else None,
     ],
